@@ -15,23 +15,27 @@ AliasBlocks ==
     <<AliasItem(<<"LEFTSHIFT">>, <<>>, "@s"), AliasItem(<<"RIGHTSHIFT">>, <<>>, "@s")>>,
     <<AliasItem(<<"LEFTSHIFT">>, <<>>, "@s"), AliasItem(<<"RIGHTSHIFT">>, <<>>, "@s"),
       AliasItem(<<"CAPSLOCK">>, <<>>, "@y"), AliasItem(<<"RIGHTALT">>, <<>>, "@y")>>,
-    <<AliasItem(<<"CAPSLOCK", "X">>, <<"LEFTCTRL">>, "@m"), AliasItem(<<"TAB">>, <<"F13">>, "@m"), AliasItem(<<"LEFTSHIFT">>, <<>>, "@s")>> }
+    <<AliasItem(<<"CAPSLOCK", "X">>, <<"LEFTCTRL">>, "@m"), AliasItem(<<"TAB">>, <<"F13">>, "@m"), AliasItem(<<"LEFTSHIFT">>, <<>>, "@s")>>,
+    \* three different aliases with 2, 1 and 2 definitions and no key in common: three-digit combination counting
+    <<AliasItem(<<"RIGHTSHIFT">>, <<>>, "@r"), AliasItem(<<"LEFTALT", "LEFTMETA">>, <<"LEFTALT">>, "@r"),
+      AliasItem(<<"LEFTSHIFT">>, <<>>, "@s"), AliasItem(<<"CAPSLOCK">>, <<>>, "@y"), AliasItem(<<"RIGHTALT">>, <<>>, "@y")>> }
   \cup (IF Size >= 2
         THEN { <<AliasItem(<<"LEFTSHIFT">>, <<>>, "@s"), AliasItem(<<"RIGHTSHIFT">>, <<>>, "@s"), AliasItem(<<"SPACE">>, <<>>, "@s"),
                  AliasItem(<<"CAPSLOCK">>, <<"F14">>, "@y")>>,
-               <<AliasItem(<<"RIGHTSHIFT">>, <<>>, "@r"), AliasItem(<<"LEFTALT", "LEFTMETA">>, <<"LEFTALT">>, "@r"),
-                 AliasItem(<<"LEFTSHIFT">>, <<>>, "@s"), AliasItem(<<"CAPSLOCK">>, <<>>, "@y"), AliasItem(<<"RIGHTALT">>, <<>>, "@y")>> }
+               \* 2, 2 and 2
+               <<AliasItem(<<"RIGHTSHIFT">>, <<>>, "@r"), AliasItem(<<"RIGHTCTRL">>, <<>>, "@r"),
+                 AliasItem(<<"LEFTSHIFT">>, <<>>, "@s"), AliasItem(<<"LEFTMETA">>, <<>>, "@s"),
+                 AliasItem(<<"CAPSLOCK">>, <<>>, "@y"), AliasItem(<<"RIGHTALT">>, <<>>, "@y")>> }
         ELSE {})
 Names(ab) == {ab[i].name: i \in 1..Len(ab)}
 ModLists(ab) ==
+  IF "@r" \in Names(ab) /\ Size < 2 THEN {<<A("@r"), A("@s"), A("@y")>>, <<A("@y"), K("LEFTCTRL"), A("@r")>>} ELSE
   {<<K("LEFTCTRL")>>}
   \cup (IF Size >= 2 THEN {<<>>, <<K("RIGHTSHIFT")>>, <<K("LEFTCTRL"), K("LEFTALT"), K("RIGHTSHIFT")>>} ELSE {})
   \cup (IF "@s" \in Names(ab) THEN {<<A("@s")>>, <<K("LEFTCTRL"), A("@s")>>} ELSE {})
   \cup (IF "@y" \in Names(ab) THEN {<<A("@y")>>, <<A("@s"), A("@y")>>, <<A("@y"), K("LEFTALT"), A("@s")>>} ELSE {})
   \cup (IF "@m" \in Names(ab) THEN {<<A("@m")>>, <<A("@m"), A("@s")>>} ELSE {})
   \cup (IF "@r" \in Names(ab) THEN {<<A("@r")>>, <<A("@r"), A("@s"), A("@y")>>, <<A("@s"), A("@r")>>} ELSE {})
-  \* three alias modifiers, each with two definitions (the combination counter needs three digits to go wrong)
-  \cup (IF "@s" \in Names(ab) /\ "@y" \in Names(ab) THEN {<<A("@s"), A("@y"), A("@s")>>, <<A("@y"), A("@s"), K("LEFTCTRL"), A("@y")>>} ELSE {})
 AliasIn(ml) == {ml[i]: i \in {j \in 1..Len(ml): ml[j].alias}}
 ToMods(ml) == {<<>>, <<K("RIGHTALT")>>} \cup {<<a>>: a \in AliasIn(ml)}
             \cup (IF Size >= 2 THEN {<<a, K("LEFTMETA")>>: a \in AliasIn(ml)} ELSE {})
